@@ -70,11 +70,10 @@ def r1(F, R):
         b, s, t = mo[0]
         sl_def = A.slice_back(b, [t["args"][1]])
         dflt = [rv["variant"] for _, rv in sl_def.aggs if rv.get("adt") == "runner::basic::ScenarioType"]
-        sl_f = A.slice_back(b, [t["args"][2]])
-        cls = [rv["def"] for _, rv in sl_f.aggs if rv.get("agg") == "closure"]
+        kb_some = A.closure_of_operand(F, b, t["args"][2])
         some = []
-        for c in cls:
-            for nb in F.nested(F.body(c)):
+        for c in ([kb_some] if kb_some is not None else []):
+            for nb in F.nested(c):
                 some += [st["rv"]["variant"] for _, st in nb.assigns(lambda st: st["rv"]["k"] == "agg" and st["rv"].get("adt") == "runner::basic::ScenarioType")]
         recv = A.slice_back(b, [t["args"][0]])
         ok_pol = dflt == ["Concurrent"] and some == ["Serial"] and recv.has_call(r"Iterator::find$", r"Iterator::(position|find_map)$")
@@ -97,11 +96,9 @@ def r1(F, R):
     R.check(len(grp) == 1, "group-by-present", ins, "", f"{len(grp)} grouping calls on the enqueue path")
     if len(grp) == 1:
         s, t = grp[0]
-        sl = A.slice_back(ins, t["args"][1:])
-        cls = [rv["def"] for _, rv in sl.aggs if rv.get("agg") == "closure"]
+        kb0 = A.closure_of_operand(F, ins, t["args"][1])
         ok = False
-        for c in cls:
-            kb = F.body(c)
+        for kb in ([kb0] if kb0 is not None else []):
             rsl = A.slice_back(kb, start_locals=[0])
             for _, ct in rsl.calls:
                 f = op_fn(ct["func"])
